@@ -1,11 +1,12 @@
 """Adapter: harness/dbfiles.py (real-kill fault enumeration of database.py + diff against the
 Lean step model lean/Wormhole/DbFile.lean) -> the result shape check.py expects."""
 import os, json
+
+os.environ.setdefault("VERIF_REPO_SRC", os.path.join(os.environ.get("VERIF_REPO", "/repo"), "src"))
 import dbfiles
 
 
 def run(pid, tier, seed):
-    os.environ.setdefault("VERIF_REPO_SRC", os.path.join(os.environ.get("VERIF_REPO", "/repo"), "src"))
     r = dbfiles.run(pid, tier, seed)
     violations = []
     for v in r.get("violations", [])[:3]:
